@@ -245,3 +245,25 @@ def window_tight_families(rng, count):
         rng.shuffle(vals)
         out.append({"vals": vals, "k": k, "only": ["rnp", "snp", "ckk"] if (k <= 3 or len(vals) <= 8) else ["rnp", "snp"]})
     return out
+
+
+def near_miss_families(rng, count, cover=True):
+    """large bin sizes with running sums that land ONE unit (a relative 1e-6) below / above the bin size: exposes floating-point tolerances"""
+    out = []
+    for i in range(count):
+        C = rng.choice([100000, 1000000, 1 << 20, 999983])
+        d = rng.choice([1, 1, 2, 5])
+        kind = i % 4
+        if kind == 0:
+            vals = [C - d] + [rng.randint(1, 3) for _ in range(rng.randint(0, 3))]
+        elif kind == 1:
+            vals = [C // 2, C - C // 2 - d] + [rng.randint(1, 3) for _ in range(rng.randint(0, 3))]
+        elif kind == 2:
+            vals = [C - d, C // 2, C - C // 2 - d, rng.randint(1, 3), rng.randint(1, 3)]
+        else:
+            vals = [C // 3, C // 3, C - 2 * (C // 3) - d, C - d] + [rng.randint(1, 2) for _ in range(rng.randint(0, 2))]
+        if not cover:
+            vals = [min(v, C) for v in vals]
+        rng.shuffle(vals)
+        out.append({"vals": vals[:8], "C": C})
+    return out
